@@ -3,7 +3,7 @@
    A position is (root, path). Repairs of DESIGN section 5 already in: R1 (restate-subtraction
    "term with constant" only for * and / right operands), E1 (balanced move only for top-level
    addends), E2 (no division by a zero coefficient), E3 (constant arithmetic does not fold `=`).
-   RInexact marks a fold whose exact value is not rational (power with non-integral exponent). *)
+   RInexact marks a fold whose exact value is not rational (power with non-integral exponent) or whose operand is nan/inf. *)
 From Coq Require Import List NArith ZArith QArith Qround Bool.
 From Mathy Require Import Num Expr Util.
 Import ListNotations.
@@ -16,12 +16,15 @@ Notation "'dor' x <- r ; k" := (rbind r (fun x => k)) (at level 200, x pattern, 
 
 (* node.evaluate() of  Bin k (Const a) (Const b) *)
 Inductive fold := FNum (n:num) | FInexact | FRaise (e:rexn).
-Definition fold_bin (k:bk) (a b:num) : fold :=
+Definition fold_fin (k:bk) (a b:num) : fold :=
   match k with
   | KAdd => FNum (nadd a b) | KSub => FNum (nsub a b) | KMul => FNum (nmul a b) | KDiv => FNum (ndiv a b)
   | KPow => match npow a b with PNum n => FNum n | PInexact => FInexact end
   | KEq => if num_eqb a b then FNum a else FRaise RValueError
   end.
+(* a nan/inf operand: IEEE arithmetic on non-finite values is outside the model (one non-finite value stands for nan and both infinities) *)
+Definition fold_bin (k:bk) (a b:num) : fold :=
+  match a, b with NNonFinite, _ | _, NNonFinite => FInexact | _, _ => fold_fin k a b end.
 
 Inductive rule := RAssoc | RComm (preferred:bool) | RConst | RFactor (constants:bool) | RDistr | RInverse | RRestate | RVarMul | RBalanced.
 
